@@ -119,7 +119,8 @@ func (w *world) build(s *spec) (url.Values, map[string]string) {
 	if !s.noDesc {
 		sub["descriptor_map"] = []any{map[string]any{"id": s.descID, "format": s.credFormat, "path": path}}
 		if s.second != nil && s.nested {
-			sub["descriptor_map"] = []any{map[string]any{"id": s.descID, "format": "jwt_vp", "path": fmt.Sprintf("$[%d]", s.mapIdx),
+			// (the node decodes the JWT presentations of an array before it evaluates paths: the outer entry then addresses an object)
+			sub["descriptor_map"] = []any{map[string]any{"id": s.descID, "format": "ldp_vp", "path": fmt.Sprintf("$[%d]", s.mapIdx),
 				"path_nested": map[string]any{"id": s.descID, "format": s.credFormat, "path": path}}}
 		}
 	}
